@@ -9,7 +9,7 @@
         -> nseg {proto:sid:seq:plen:md5}* fail=<0|1>
    E tag now nbox {nonce:ct:pt}* stream nsid {sid}* role   the same, through `session_in role sid`, projected to what each session's application reads
         -> {sid:len:md5}*
-   G tag nev {A:seq:payload | C}*              extracted `u_run`: what a UDP session releases to its application
+   G tag nev {A:seq:payload | C | K}*              extracted `u_run`: what a UDP session releases to its application
         -> len:md5
    U tag now nbox {nonce:ct:pt}* datagram      extracted `udp_parse` on an arbitrary datagram
         -> DROP | OK proto:sid:seq:plen:md5 *)
@@ -55,11 +55,12 @@ let () =
     let impl_line = (try input_line impl with End_of_file -> "") in
     let f = Array.of_list (split_ws line) in
     if Array.length f >= 3 && f.(0) = "G" then begin
-      (* G tag nev {A:seq:payload | C}*  : the session's release of genuine sequenced segments in arrival order *)
+      (* G tag nev {A:seq:payload | C | K}*  : the session's release of genuine sequenced segments in arrival order *)
       let nev = int_of_string f.(2) in
       let evs = List.init nev (fun i ->
         match String.split_on_char ':' f.(3 + i) with
         | ["A"; q; p] -> UArrive (nat_of_int (int_of_string q), bytes_of_hex p)
+        | ["K"] -> UAck
         | _ -> UClose) in
       let st = u_run evs in
       let bytes = List.concat st.u_q in
